@@ -7,6 +7,13 @@ ALL = ["C%02d" % i for i in range(1, 21)]
 
 # id -> (level category, technique, level text, level note, design ref)
 CHECKS = {
+    "C09": (
+        "model_checking",
+        "bounded-exhaustive enumeration of lex specifications x id maps x input strings against a direct maximal-munch reference lexer with a plain state stack",
+        "Every ordered list of up to 3 rules over a 9-regex menu (overlapping, alternation, repetition, multi-byte, dot) with every named/skip assignment; every list of up to 2 (thorough 3) rules over {a, b, ab} x every start-state prefix (none, inclusive, exclusive, both, INITIAL) x every target operation (none, replace, push, pop on inclusive/exclusive/INITIAL) x named/skip; every subset of {case_insensitive, !dot_matches_new_line, !multi_line} on a flag-sensitive menu; each against every input string up to length 5-6 over an alphabet with a two-byte character and a newline. The whole lexeme / error sequence is compared with a reference that re-implements rule activation, longest match, earliest rule on ties, push / pop / replace on a plain (not run-length) stack and the single error at the first unmatched position. set_rule_ids is run with every map over subsets of the rule names plus a foreign name and its two result sets and the subsequent lexing are compared.",
+        "The meaning of each regular expression is the regex crate's on both sides. Result order of set_rule_ids as pinned by the repository's own test.",
+        "DESIGN.md 3/C09",
+    ),
     "C12": (
         "model_checking",
         "bounded-exhaustive enumeration of input strings (all strings over a lexical-class alphabet up to a length; context prefix x all short strings; all single edits of seeds) through every parser entry point in watched child processes",
